@@ -13,8 +13,11 @@ from .. import split_cases as sc
 
 RULE = ("every case = (reads file, haplotag list file, option set, PYTHONHASHSEED in {0,1,7,42}) run through the real "
         "`whatshap split` CLI: (a) all 192 option combinations {h1 | h2 | h1+h2 | -o x2 | -o x3 | -o x4} x untagged x "
-        "add-untagged x only-largest-block x discard-unknown-reads x histogram, each with fresh random data (FASTQ, "
-        "FASTQ.gz, unmapped and mapped BAM incl. records without sequence, paired/secondary/supplementary flags, tags; "
+        "add-untagged x only-largest-block x discard-unknown-reads x histogram, any subset of the given outputs (incl. all "
+        "of them = histogram only, on the --output-hN/--output-untagged path and on the -o path) being /dev/null, each "
+        "with fresh random data (FASTQ, "
+        "FASTQ.gz, unmapped and mapped BAM incl. records without sequence, paired/secondary/supplementary/unmapped "
+        "flags, both mates of a pair under one name (adjacent or separated), primary + supplementary of one name, tags; "
         "0-10 reads drawn from a pool of 1-6 names (random names and names that share prefixes or look like "
         "haplotype/phase-set/chromosome names), so duplicate names -- adjacent and separated -- are the rule; exact "
         "duplicate records; FASTQ with/without final newline; lists with 2-5 columns, with/without header, plain/gz, "
@@ -50,6 +53,11 @@ ASSUMPTIONS = [
     "exactly this block)",
     "where a name stands on several list lines with different entries, every reading of those lines is accepted by the "
     "specification check (L1); the model pins the code's choice -- the last tagged line -- at L2",
+    "histogram rule of HEAD (process_haplotype): a read is counted in the column of the class its list entry selects "
+    "iff an output path was given for that class -- /dev/null counts as a path (tests/test_run_split.py takes its "
+    "histogram from /dev/null outputs) -- or it is untagged and --add-untagged is on; reads of a class without any "
+    "path (e.g. H2 with only --output-h1) are skipped: neither written nor counted. The clause is evaluated from "
+    "list + reads + which paths were given, not from the output files",
     "with --add-untagged the histogram column count-hN counts the reads of haplotype N and count-untagged the "
     "untagged reads (each once), as the column names say",
     "FASTQ input is in the canonical 4-line form (pysam normalises a repeated name on the `+` line away)",
@@ -180,6 +188,8 @@ def describe(case, ob):
     o = case["opts"]
     flags = [k for k in ("untagged", "add", "largest", "discard", "hist") if o[k]]
     outs = ("-o x%d" % o["k"]) if o["mode"] == "o" else "+".join(k for k in ("h1", "h2") if o[k])
+    if any(sc.opts_null(o)):
+        outs += " (/dev/null for outputs %s; 0 = untagged)" % [i for i, x in enumerate(sc.opts_null(o)) if x]
     names = [r["name"] if isinstance(r, dict) else r[0] for r in case["reads"]]
     lst = [f"{n} {h}" + (f" {ps} {ch}" if case['list']['ncols'] >= 4 else "") for n, h, ps, ch in case["list"]["lines"]]
     if ob["rc"] != 0:
@@ -211,6 +221,13 @@ def shrink_batch(ctx, case, sig, rounds):
             if cur["opts"][k]:
                 c = copy.deepcopy(cur)
                 c["opts"][k] = False
+                if k == "untagged" and c["opts"].get("null"):
+                    c["opts"]["null"][0] = False
+                cands.append(c)
+        for i, x in enumerate(sc.opts_null(cur["opts"])):
+            if x:
+                c = copy.deepcopy(cur)
+                c["opts"]["null"][i] = False
                 cands.append(c)
         if not cands:
             break
@@ -329,6 +346,43 @@ def process(ctx, results, label, count=True):
                 ctx.tally("opt.discard_and_largest")
             if o["gzout"] and case["fmt"] != "bam":
                 ctx.tally("outputs.gz")
+            null = sc.opts_null(o)
+            given = [o["untagged"]] + ([o["h1"], o["h2"]] if o["mode"] == "h" else [True] * o["k"])
+            if any(null):
+                ctx.tally("outputs.devnull.some")
+                ctx.tally("outputs.devnull." + ("o_path" if o["mode"] == "o" else "h1h2_path"))
+                if null[0]:
+                    ctx.tally("outputs.devnull.untagged")
+                if any(null[1:]):
+                    ctx.tally("outputs.devnull.haplotype")
+                if o["hist"]:
+                    ctx.tally("outputs.devnull.with_histogram")
+                    listed = {h for _, h, _, _ in case["list"]["lines"]}
+                    names_h = {n_: h for n_, h, _, _ in case["list"]["lines"] if h != "none"}
+                    if any(null[i] and any(names_h.get(x) == f"H{i}" for x in nm) for i in range(1, len(null))):
+                        ctx.tally("outputs.devnull.with_histogram_and_reads_of_that_haplotype")
+                if null == given:
+                    ctx.tally("outputs.devnull.all_given_outputs" + ("_histogram_only" if o["hist"] else ""))
+            if case["fmt"] == "bam":
+                fl = [r["flag"] for r in case["reads"]]
+                for bit, nm_ in ((4, "unmapped"), (256, "secondary"), (2048, "supplementary"), (1, "paired"), (16, "reverse")):
+                    if any(f & bit for f in fl):
+                        ctx.tally("bam.flag." + nm_)
+                firsts = {r["name"] for r in case["reads"] if r["flag"] & 64}
+                seconds = {r["name"] for r in case["reads"] if r["flag"] & 128}
+                if firsts & seconds:
+                    ctx.tally("bam.mates_sharing_a_name")
+                    both = firsts & seconds
+                    idx = {n_: [i for i, r in enumerate(case["reads"]) if r["name"] == n_] for n_ in both}
+                    if any(b - a > 1 for v in idx.values() for a, b in zip(v, v[1:])):
+                        ctx.tally("bam.mates_not_adjacent")
+                prim = {r["name"] for r in case["reads"] if not r["flag"] & (256 | 2048)}
+                if prim & {r["name"] for r in case["reads"] if r["flag"] & (256 | 2048)}:
+                    ctx.tally("bam.primary_and_secondary_or_supplementary_same_name")
+                if any(not r["seq"] for r in case["reads"]):
+                    ctx.tally("bam.record_without_sequence")
+                if any(r["tags"] for r in case["reads"]):
+                    ctx.tally("bam.tags")
             if ob["rc"] == 0 and "hist" in ob:
                 ctx.tally("hist.rows_" + (str(len(ob["hist"])) if len(ob["hist"]) <= 1 else "2+"))
                 if any(sum(1 for x in row[1:] if x) >= 2 for row in ob["hist"]):
@@ -392,6 +446,14 @@ def run(ctx):
         for ext, fmt in (("fq", "fastq"), ("fq.gz", "fastq.gz"), ("fastq.gzip", "fastq.gz"), ("fq.gzip", "fastq.gz"),
                          ("fastq", "fastq"), ("fastq.gz", "fastq.gz")):
             cases.append(sc.gen_case(rng, fmt=fmt, ext=ext))
+    # histogram only: every given output is the null device (both output paths), with the histogram
+    for _ in range(ctx.n(24, 240)):
+        c = sc.gen_case(rng)
+        o = c["opts"]
+        o["hist"] = True
+        given = [o["untagged"]] + ([o["h1"], o["h2"]] if o["mode"] == "h" else [True] * o["k"])
+        o["null"] = list(given) if rng.random() < 0.5 else [g and rng.random() < 0.6 for g in given]
+        cases.append(c)
     # (d) rejected inputs
     for _ in range(ctx.n(6, 60)):
         for inv in ("badhap", "emptyfile", "largest2col", "noknown"):
